@@ -2,10 +2,12 @@ package main
 
 import (
 	"fmt"
+	"strings"
 
 	"github.com/bolkedebruin/rdpgw/cmd/rdpgw/protocol"
 
 	"verif/internal/tsgu"
+	"verif/shim/vsched"
 )
 
 // C16 — responses are well-formed MS-TSGU packets reporting true outcome and policy.
@@ -89,10 +91,15 @@ func c16Policy(fi int, timeout int, kind string, rep *Report) (string, string) {
 func c16(env *Env, rep *Report) {
 	alpha := c01Alphabet()
 	rep.Rule = "(a) policy: all 128 redirect-switch combinations x boundary idle timeouts {int32 min/max and neighbours, +-1, +-2^15, +-2^16, 0..3} plus every int16 value for 2 (quick) / 8 (thorough) switch combinations, each one execution HS,TC,TA on the real Processor; the tunnel-auth response must decode (independent decoder) to exactly the announced fields, redirect word and timeout == reference policy; a subset again over websocket and legacy. " +
-		"(b) outcomes: for the 4 capability settings, every history 'canonical prefix of k=0..6 packets + any one of the 31 alphabet symbols': every packet the gateway sends must be well-formed (length == bytes sent, exactly the announced optional fields), its type must be the response type of the request it answers, its status 0 iff the reference accepts the step, and capability mismatch / cookie rejection / host-policy denial must carry their MS-TSGU codes. distinct_nontrivial = distinct cases."
+		"(b) outcomes: for the 4 capability settings, every history 'canonical prefix of k=0..6 packets + any one of the 31 alphabet symbols': every packet the gateway sends must be well-formed (length == bytes sent, exactly the announced optional fields), its type must be the response type of the request it answers, its status 0 iff the reference accepts the step, and capability mismatch / cookie rejection / host-policy denial must carry their MS-TSGU codes. (c) schedules: a host that sends as soon as it is connected, every schedule up to preemption bound 2 on both transports: the first packet after each request is its response. distinct_nontrivial = distinct cases."
 	rep.Assumptions = append(rep.Assumptions, "idle timeouts beyond the int32 range are outside the property", "table cookie checker; real host policy")
 	if env.Replay != nil {
 		rp := env.Replay
+		if name, ok := rp["scenario"].(string); ok && strings.HasPrefix(name, "talkative-host-") {
+			sc := c16OrderScenario(strings.TrimPrefix(name, "talkative-host-"))
+			replayConc(rep, sc, rp, nil, c16OrderCheck(sc))
+			return
+		}
 		g := func(k string) int { f, _ := rp[k].(float64); return int(f) }
 		kind, _ := rp["kind"].(string)
 		if _, ok := rp["flags"]; ok {
@@ -189,6 +196,12 @@ func c16(env *Env, rep *Report) {
 			}
 		}
 	}
+	// (c) ordering under schedules: a host that talks as soon as it is connected must not get its data
+	// to the client ahead of the channel response (the packet answering a request carries the response type)
+	for _, kind := range []string{"ws", "legacy"} {
+		sc := c16OrderScenario(kind)
+		exploreConc(env, rep, sc, 2, nil, c16OrderCheck(sc))
+	}
 	if gwBin() != "" {
 		bindCaps(rep, "C16", env)
 	}
@@ -257,4 +270,23 @@ func c16Outcome(alpha []sym, token, sc bool, kind string, hist []int, rep *Repor
 		rep.outcome(fmt.Sprintf("outcome %s@%s accept=%v reason=%s n=%d", s.Class, phase, accept, reason, len(o.Resps)))
 	}
 	return
+}
+
+func c16OrderScenario(kind string) ConcScenario {
+	return ConcScenario{Name: "talkative-host-" + kind, Plans: []TunnelPlan{{Kind: kind, ConnID: "A", User: "ua", IP: "10.0.0.1", Host: "ha.example:3389",
+		Script: []string{"recvbytes:13", "close", "drain"}, Chunks: [][]byte{[]byte("BANNER-LINE-1")}}}}
+}
+
+func c16OrderCheck(sc ConcScenario) func(res *ConcResult, races []RaceReport) (string, []vsched.Violation) {
+	return func(res *ConcResult, races []RaceReport) (string, []vsched.Violation) {
+		t := res.Tunnels[0]
+		var v []vsched.Violation
+		if t.SetupFailed != "" {
+			v = append(v, vsched.Violation{Sig: "C16/request-answered-with-another-packet-type/" + sc.Name, Detail: "during setup: " + t.SetupFailed + " (the first packet after a request was not its response)"})
+		}
+		for _, p := range res.X.Panics() {
+			v = append(v, vsched.Violation{Sig: "C16/panic/" + sc.Name, Detail: p.Value})
+		}
+		return fmt.Sprintf("setup=%q resps=%v data=%q", t.SetupFailed, t.Resps, t.ClientData), v
+	}
 }
